@@ -431,8 +431,8 @@ class Profiles:
             elif isinstance(profiles, str):
                 profiles = (profiles,)
             for profilename in reversed(profiles):
-                # check given profiles
-                if name in self._profilesProperties[profilename]:
+                # check given profiles (a default profile may have been removed)
+                if name in self._profilesProperties.get(profilename, ()):
                     validate = self._profilesProperties[profilename][name]
                     try:
                         if validate(value):
